@@ -279,3 +279,21 @@ Example stage_process_batch_nontrivial :
   stage_batch_default stage [1; 2; 13; 4]%Z = (None, [ECall 1; ECall 2; ECall 13]%Z) /\
   fst (stage_batch_default (filter_process (fun x => negb (x mod 3 =? 0)%Z)) [1; 3; 5]%Z) = Some [Some 1; None; Some 5]%Z.
 Proof. vm_compute. split; reflexivity. Qed.
+
+(* histories on one FiberYield *)
+Theorem yield_budget_history_proof : forall (init : N) (ops : list Z) (y : fy), fy_budget y <= init ->
+  fy_budget (fold_left (fy_apply init) ops y) <= init /\
+  fy_total (fold_left (fy_apply init) ops y) = yields_since (fy_total y) ops.
+Proof.
+  intros init. induction ops as [|o r IH]; intros y Hy; cbn [fold_left yields_since]; [split; [exact Hy|reflexivity]|].
+  assert (A : fy_budget (fy_apply init y o) <= init).
+  { unfold fy_apply. destruct (o =? 1)%Z; [apply fy_yield_budget; exact Hy|]. destruct (o =? 2)%Z; cbn [fy_force fy_reset fy_budget]; lia. }
+  assert (B : fy_total (fy_apply init y o) = if is_yield_op o then fy_total y + 1 else 0).
+  { unfold fy_apply, is_yield_op. destruct (o =? 1)%Z; cbn [orb]; [apply fy_yield_total|]. destruct (o =? 2)%Z; reflexivity. }
+  destruct (IH (fy_apply init y o) A) as [I1 I2]. split; [exact I1|]. rewrite I2, B. destruct (is_yield_op o); reflexivity.
+Qed.
+
+Example yield_budget_history_nontrivial :
+  fold_left (fy_apply 2) [1; 1; 1; 2; 3; 1]%Z (mkFY 2 0) = mkFY 1 1 /\
+  fold_left (fy_apply 2) [1; 1; 1]%Z (mkFY 2 0) = mkFY 2 3.
+Proof. vm_compute. split; reflexivity. Qed.
